@@ -143,10 +143,17 @@ def _is_len_mapping_plus(e, env):
             and len(left.args) == 1):
         raise Unrecognised("version value is not len(...) + <int>")
     g = _resolve(left.args[0], env)
-    if not (isinstance(g, ast.Call) and isinstance(g.func, ast.Name) and g.func.id == "getattr" and len(g.args) == 3
-            and _is_name(g.args[0], "self") and isinstance(g.args[1], ast.Name) and g.args[1].id == "VERSIONS_MAPPING"
-            and isinstance(g.args[2], ast.List) and not g.args[2].elts):
-        raise Unrecognised("mapping is not getattr(self, VERSIONS_MAPPING, [])")
+    if isinstance(g, ast.BoolOp) and isinstance(g.op, ast.Or) and len(g.values) == 2 \
+            and isinstance(g.values[1], (ast.List, ast.Tuple)) and not g.values[1].elts:
+        g = _resolve(g.values[0], env)                       # `<mapping> or []`
+    owner_ok = isinstance(g, ast.Call) and isinstance(g.func, ast.Name) and g.func.id == "getattr" \
+        and len(g.args) in (2, 3) and (
+            _is_name(g.args[0], "self")
+            or (isinstance(g.args[0], ast.Attribute) and _is_name(g.args[0].value, "self")
+                and g.args[0].attr == "__class__")
+            or (_call_named(g.args[0], "type") and len(g.args[0].args) == 1 and _is_name(g.args[0].args[0], "self")))
+    if not (owner_ok and isinstance(g.args[1], ast.Name) and g.args[1].id == "VERSIONS_MAPPING"):
+        raise Unrecognised("mapping is not getattr(self, VERSIONS_MAPPING[, default])")
     return off
 
 
